@@ -9,7 +9,7 @@ RULE = ("correspondence: the four pairing implementations of the model (hand-mod
         "negations, random projective representatives, infinity, off-curve points; predicates: bilinearity e(bQ,aP)=e(Q,P)^(ab), additivity in "
         "both arguments, negation inverts, e(G2,G1) has order exactly r, unit on infinity, ValueError for off-curve arguments — on the real code")
 HYPOTHESES = ['HB1 (structure C05.HB1): additivity of the Miller-loop pairing in each argument — the headline bilinearity clause is CONDITIONAL on it; sampled on model and implementation']
-NOT_YET_PROVED = ['bilinearity itself (HB1)', 'e(G2, G1) != 1 by kernel evaluation (PropsHeavy/C05_Nondeg, thorough tier, in progress); e^r = 1 is a theorem (C05_Order)']
+NOT_YET_PROVED = ['bilinearity itself (HB1). Proved around it: pairing values are r-th roots of unity (C05_Order, four implementations), e(G2,G1) != 1 of order exactly r by kernel evaluation (PropsHeavy/C05_Nondeg), optimized = reference pairings (C12_Miller, C12_MillerBn)']
 ASSUMPTIONS = []
 nontrivial = nontrivial_default
 CHUNK = 1
